@@ -188,38 +188,13 @@ fn inner(case: &C15Case, o: &mut Outcome) -> Result<(), (String, String)> {
             if nt {
                 o.nontrivial_key(fnv1a(format!("{name}\0{epoch}\0{version}\0{release}\0{arch}").as_bytes()));
             }
+            // the oracle is applied to the value built from borrowed &str and to
+            // the one built from owned Strings (both are "component values")
             let x = rpm::Nevra::new(name.as_str(), epoch.as_str(), version.as_str(), release.as_str(), arch.as_str());
-            // the same value built from owned Strings behaves identically
+            nevra_oracle(&x, "borrowed", name, epoch, version, release, arch)?;
             let owned = rpm::Nevra::new(name.clone(), epoch.clone(), version.clone(), release.clone(), arch.clone());
-            if owned != x || owned.to_string() != x.to_string() || owned.as_normalized_form() != x.as_normalized_form() || owned.nvra() != x.nvra() {
-                return Err(("owned-vs-borrowed".into(), format!("Nevra built from owned Strings differs from the one built from &str: {:?} / {:?} / {:?}", owned.to_string(), owned.as_normalized_form(), x.as_normalized_form())));
-            }
-            let eo = rpm::Evr::new(epoch.clone(), version.clone(), release.clone());
-            let eb = rpm::Evr::new(epoch.as_str(), version.as_str(), release.as_str());
-            if eo != eb || eo.to_string() != eb.to_string() || eo.as_normalized_form() != eb.as_normalized_form() {
-                return Err(("owned-vs-borrowed".into(), "Evr built from owned Strings differs from the one built from &str".into()));
-            }
-            let text = x.to_string();
-            let back = rpm::Nevra::parse(&text);
-            if back.values() != x.values() {
-                return Err(("nevra-roundtrip".into(), format!("{:?} prints as {:?} which parses to {:?}", x.values(), text, back.values())));
-            }
-            if back != x {
-                return Err(("nevra-roundtrip".into(), format!("parse({text:?}) != original")));
-            }
-            let norm = x.as_normalized_form();
-            let want_epoch = if epoch.is_empty() { "0" } else { epoch.as_str() };
-            if !norm.contains(&format!("{want_epoch}:")) {
-                return Err(("normalized-epoch".into(), format!("normalised form {norm:?} carries no epoch")));
-            }
-            let nb = rpm::Nevra::parse(&norm);
-            if nb != x || (nb.epoch() != epoch && nb.epoch() != "0") {
-                return Err(("normalized-roundtrip".into(), format!("normalised form {norm:?} parses to {:?}, original {:?}", nb.values(), x.values())));
-            }
-            let (n2, _, v2, r2, a2) = nb.values();
-            if (n2, v2, r2, a2) != (name.as_str(), version.as_str(), release.as_str(), arch.as_str()) {
-                return Err(("normalized-roundtrip".into(), format!("normalised form {norm:?} parses to {:?}", nb.values())));
-            }
+            nevra_oracle(&owned, "owned", name, epoch, version, release, arch)?;
+            evr_oracle(&rpm::Evr::new(epoch.clone(), version.clone(), release.clone()), "owned", epoch, version, release)?;
             // the EVR inside
             evr_roundtrip(epoch, version, release)?;
         }
@@ -255,21 +230,53 @@ fn inner(case: &C15Case, o: &mut Outcome) -> Result<(), (String, String)> {
     Ok(())
 }
 
+fn nevra_oracle(x: &rpm::Nevra<'_>, how: &str, name: &str, epoch: &str, version: &str, release: &str, arch: &str) -> Result<(), (String, String)> {
+    if x.values() != (name, epoch, version, release, arch) {
+        return Err(("nevra-roundtrip".into(), format!("({how}) accessors give {:?} for components {:?}", x.values(), (name, epoch, version, release, arch))));
+    }
+    let text = x.to_string();
+    let back = rpm::Nevra::parse(&text);
+    if back.values() != x.values() {
+        return Err(("nevra-roundtrip".into(), format!("({how}) {:?} prints as {:?} which parses to {:?}", x.values(), text, back.values())));
+    }
+    if back != *x {
+        return Err(("nevra-roundtrip".into(), format!("({how}) parse({text:?}) != original")));
+    }
+    let norm = x.as_normalized_form();
+    let want_epoch = if epoch.is_empty() { "0" } else { epoch };
+    if !norm.contains(&format!("{want_epoch}:")) {
+        return Err(("normalized-epoch".into(), format!("({how}) normalised form {norm:?} carries no epoch")));
+    }
+    let nb = rpm::Nevra::parse(&norm);
+    if nb != *x || (nb.epoch() != epoch && nb.epoch() != "0") {
+        return Err(("normalized-roundtrip".into(), format!("({how}) normalised form {norm:?} parses to {:?}, original {:?}", nb.values(), x.values())));
+    }
+    let (n2, _, v2, r2, a2) = nb.values();
+    if (n2, v2, r2, a2) != (name, version, release, arch) {
+        return Err(("normalized-roundtrip".into(), format!("({how}) normalised form {norm:?} parses to {:?}", nb.values())));
+    }
+    Ok(())
+}
+
 fn evr_roundtrip(epoch: &str, version: &str, release: &str) -> Result<(), (String, String)> {
     let e = rpm::Evr::new(epoch, version, release);
+    evr_oracle(&e, "borrowed", epoch, version, release)
+}
+
+fn evr_oracle(e: &rpm::Evr<'_>, how: &str, epoch: &str, version: &str, release: &str) -> Result<(), (String, String)> {
     let text = e.to_string();
     let back = rpm::Evr::parse(&text);
-    if back.values() != e.values() || back != e {
-        return Err(("evr-roundtrip".into(), format!("{:?} prints as {:?} which parses to {:?}", e.values(), text, back.values())));
+    if back.values() != e.values() || back != *e {
+        return Err(("evr-roundtrip".into(), format!("({how}) {:?} prints as {:?} which parses to {:?}", e.values(), text, back.values())));
     }
     let norm = e.as_normalized_form();
     let want_epoch = if epoch.is_empty() { "0" } else { epoch };
     if !norm.starts_with(&format!("{want_epoch}:")) {
-        return Err(("normalized-epoch".into(), format!("normalised EVR {norm:?} does not start with the epoch")));
+        return Err(("normalized-epoch".into(), format!("({how}) normalised EVR {norm:?} does not start with the epoch")));
     }
     let nb = rpm::Evr::parse(&norm);
-    if nb != e || nb.version() != version || nb.release() != release || (nb.epoch() != epoch && nb.epoch() != "0") {
-        return Err(("normalized-roundtrip".into(), format!("normalised EVR {norm:?} parses to {:?}", nb.values())));
+    if nb != *e || nb.version() != version || nb.release() != release || (nb.epoch() != epoch && nb.epoch() != "0") {
+        return Err(("normalized-roundtrip".into(), format!("({how}) normalised EVR {norm:?} parses to {:?}", nb.values())));
     }
     Ok(())
 }
